@@ -233,7 +233,7 @@ class Ob:
         self.key = None
 
 
-def ledger_match(ledger, o):
+def ledger_match(ledger, o, taken=None, entry=None):
     """Audited entry covering an obligation: the exact key, or - for sites identified by conditions (explicit panics,
     generic arithmetic) - a set of entries `owner|kind|desc(conds)` such that every path reaching the site satisfies the
     conditions of one of them (a site merged from several audited situations is still audited; a site reachable under
@@ -241,6 +241,19 @@ def ledger_match(ledger, o):
     e = ledger.get(o.key)
     if e is not None:
         return e
+    # a site that moved into a private helper shared by several entry points keeps the audit of the function it was
+    # inlined into: the same (kind, description) keyed by a function on the inline chain from the entry to the site -
+    # but only when that key is not claimed by a site of its own in this analysis (`taken`)
+    if taken is not None and o.kind != "panic" and getattr(o, "chain", None) is not None:
+        m0 = re.match(r"^(.*?)(\|%s\|.*)$" % re.escape(o.kind), o.key or "")
+        if m0:
+            for anc in [entry] + list(reversed(o.chain)):
+                if not anc:
+                    continue
+                k2 = short_fn(anc) + m0.group(2)
+                if k2 != o.key and k2 in ledger and k2 not in taken:
+                    taken.add(k2)
+                    return dict(ledger[k2], via=k2)
     pcs = getattr(o, "path_conds", None)
     if not pcs:
         return None
@@ -314,6 +327,7 @@ def collect(F, fn_path, tag="", inline_pred=None, facts_hook=None, loop_k=1, ren
         cs = set(conds.split(";")) if conds else set()
         if o is None:
             o = sites[k] = Ob(kind, site[0], desc, site, status, why, p)
+            o.chain = list(cur.get("chain") or [])
             o.detail = detail
             o.conds = cs if conds is not None else None
             o.path_conds = {frozenset(cs)} if conds is not None else set()
@@ -368,10 +382,16 @@ def collect(F, fn_path, tag="", inline_pred=None, facts_hook=None, loop_k=1, ren
                 cur["facts"] = fs
                 cur["lin"] = lin
             return cur["facts"]
+        active = []
         for idx, e in enumerate(p.effects):
             cur["idx"] = idx
             cur["facts"] = None
             cur["snap"] = None
+            if e[0] == "enter":
+                active.append(e[1])
+            elif e[0] == "exit" and active and active[-1] == e[1]:
+                active.pop()
+            cur["chain"] = active
             if e[0] == "assert" and len(e) > 5:
                 cur["snap"] = e[5]
             elif e[0] == "call" and len(e) > 6:
